@@ -911,7 +911,11 @@ def compile (s : St) (op : Op) : Option (List Mi) :=
     -- pointer owned by o).  destruct_object(o) does NOT remove it (sentence->ob is 0), only the next input does.
     match uobjCell s o with
     | some (_, _) =>
-      if a < nSlots && b < nSlots && isNumRoot s rInput then
+      if a < nSlots && b < nSlots && !isNumRoot s rInput then
+        -- an input_to is already pending: set_call() refuses; the function pointer made for the callback (one more
+        -- holder of the owner) and the sentence are released again, the arguments have not been captured yet
+        some [.alloc .fn 2 false "" 0, .dup (.root (rHandle o)), .put (.item fresh 1), .free]
+      else if a < nSlots && b < nSlots && isNumRoot s rInput then
         some [.alloc .arr 2 false "" 0, .dup (.root a), .put (.item fresh 0), .dup (.root b), .put (.item fresh 1),
               .alloc .fn 2 false "" 0, .dup (.root (rHandle o)), .put (.item (fresh + 1) 1),
               .alloc .sent 2 false "" 0, .swap, .put (.item (fresh + 2) 1), .swap, .put (.item (fresh + 2) 0),
@@ -922,7 +926,9 @@ def compile (s : St) (op : Op) : Option (List Mi) :=
     -- the same with the callback icb2 (tag 1 of the sentence): when the input arrives it calls input_to("icb", 0, b, a)
     match uobjCell s o with
     | some (_, _) =>
-      if a < nSlots && b < nSlots && isNumRoot s rInput then
+      if a < nSlots && b < nSlots && !isNumRoot s rInput then
+        some [.alloc .fn 2 false "" 0, .dup (.root (rHandle o)), .put (.item fresh 1), .free]
+      else if a < nSlots && b < nSlots && isNumRoot s rInput then
         some [.alloc .arr 2 false "" 0, .dup (.root a), .put (.item fresh 0), .dup (.root b), .put (.item fresh 1),
               .alloc .fn 2 false "" 0, .dup (.root (rHandle o)), .put (.item (fresh + 1) 1),
               .alloc .sent 2 false "" 1, .swap, .put (.item (fresh + 2) 1), .swap, .put (.item (fresh + 2) 0),
